@@ -88,8 +88,8 @@ def _spec(mname, pal=0):
     spec['responses'][0]['type'] = 'obj'
     spec['responses'][0]['index'] = 0
     for d in spec['dvs']:
-        d['lower'] = -3.0
-        d['upper'] = 3.0
+        d['lower'] = -0.03 if mname == 'ff' else -3.0      # (ff converts m -> cm: keep values moderate)
+        d['upper'] = 0.03 if mname == 'ff' else 3.0
         d['indices'] = [0]
     return spec
 
